@@ -291,7 +291,7 @@ func genOpts(cfg vmx.Cfg, s *rt.Section) gen.Opts {
 	o.MaxStmts = 4
 	o.MaxDepth = 3
 	o.Dice = true
-	o.SingleKeyDicts = true // nothing observable may depend on Go map order
+	o.SingleKeyDicts = false // since fix 6269628 a dict prints and lists its entries in key order
 	o.CoC, o.WoD, o.Fate, o.DC = cfg.CoC, cfg.WoD, cfg.Fate, cfg.DC
 	o.Avoid = s.Avoid
 	return o
